@@ -1,4 +1,5 @@
 import AndaVerif.Proofs.ObjStoreInv
+import AndaVerif.Gen.SidecarOrderFacts
 /-
 Every prefix of the step list of a commit (write / copy) and of a delete: the backend invariant
 holds and cold reads are known exactly.  Consumed by the refinement (full list) and by the crash
@@ -153,6 +154,11 @@ theorem deleteSteps_std (k : Path) (payload : List Step) :
         | .pointer => [Step.del (.mt k)]
         | .payload => payload)) = Step.del (.mt k) :: payload := by
   simp
+
+/-- the steps of a delete of `k` whose commit point currently decodes to `c` -/
+def deleteSteps (k : Path) : Option Doc → List Step
+  | some d => [Step.del (.mt k), Step.del (payloadPath k d.gen)]
+  | none => []
 
 /-- **delete**: every prefix (commit point first, payload second). -/
 theorem delete_prefix {be : Backend} {nid : Nat} (h : BInv be nid) (now : Nat) (k : Path) (n : Nat) :
